@@ -50,6 +50,10 @@ Definition spec_regex (s : cid) (f : fld) : string :=
 Definition uncompiled_cand (c : cid) (f : fld) : string :=
   match f with FInterface => c_package c | _ => get c f end.
 
+(** a taint-tracking problem ([config.TaintSpec]); a slicing problem uses [p_sources] for its backtrace points *)
+Record problem := mkProblem {
+  p_sources : list spec; p_sinks : list spec; p_sanitizers : list spec; p_validators : list spec }.
+
 Section Matcher.
   Variable rmatch : string -> string -> bool.
 
@@ -75,6 +79,17 @@ Section Matcher.
 
   Definition classify_ideal (specs : list cid) (ids : list cid) : bool :=
     existsb (fun c => existsb (fun sp => match_ideal sp c) specs) ids.
+
+  (** ** Config-wide oracles ([Config.isSomeTaintSpecCid], [IsSomeSource] ... [IsSomeBacktracePoint]) *)
+
+  (** [Config.IsSomeX cid]: some problem of the configuration, in any position, has an identifier accepting [cid] *)
+  Definition is_some (sel : problem -> list spec) (cfg : list problem) (c : cid) : bool :=
+    existsb (fun p => exists_cid (sel p) c) cfg.
+
+  (** [taint.IsNodeOfInterest] (without annotations): the intra-procedural pass creates a graph node for an
+      instruction iff one of its entry candidates is accepted by [IsSomeSource] or by [IsSomeSink] *)
+  Definition node_of_interest (cfg : list problem) (cands : list cid) : bool :=
+    existsb (is_some p_sources cfg) cands || existsb (is_some p_sinks cfg) cands.
 End Matcher.
 
 (** ** String helpers *)
